@@ -67,6 +67,7 @@ def allowed_upper_bound(doc) -> int:
 
 
 _TIMEOUTS = [0]
+DISTURB = [[1, {"a": 1}], [2, {"a": [2]}], {"a": [3, [4]]}]
 
 
 def outputs_of(jp, env, q, doc, cap, late_flag=False):
@@ -84,6 +85,17 @@ def outputs_of(jp, env, q, doc, cap, late_flag=False):
         c = env.compile(q)
 
     def go():
+        # the compiled query has a past: evaluations over ANOTHER document abandoned after a few nodes, with siblings still pending
+        # (their random choices are muted: the explored tree is the tree of the evaluation under test)
+        with chooser.muted():
+            try:
+                it = iter(c.finditer(DISTURB))
+                for _ in range(4):
+                    next(it, None)
+                del it
+                c.find_one(DISTURB)
+            except Exception:  # noqa: BLE001
+                pass
         try:
             return tuple(tuple(n.location) for n in c.find(doc))
         except Exception as err:  # noqa: BLE001
